@@ -510,7 +510,10 @@ impl Walrus {
                     // Decode metadata to get read_size
                     let mut aligned = AlignedVec::with_capacity(meta_len);
                     aligned.extend_from_slice(&meta_buf[2..2 + meta_len]);
-                    let archived = unsafe { rkyv::archived_root::<Metadata>(&aligned[..]) };
+                    let archived = match rkyv::check_archived_root::<Metadata>(&aligned[..]) {
+                        Ok(a) => a,
+                        Err(_) => break, // damaged header
+                    };
                     let meta: Metadata = match archived.deserialize(&mut rkyv::Infallible) {
                         Ok(m) => m,
                         Err(_) => {
@@ -713,10 +716,10 @@ impl Walrus {
                     if meta_len > 0 && meta_len <= PREFIX_META_SIZE - 2 {
                         let mut aligned_peek_meta = AlignedVec::with_capacity(meta_len);
                         aligned_peek_meta.extend_from_slice(&meta_buf[2..2 + meta_len]);
-                        let archived_peek_meta =
-                            unsafe { rkyv::archived_root::<Metadata>(&aligned_peek_meta[..]) };
-                        let meta_res: Result<Metadata, _> =
-                            archived_peek_meta.deserialize(&mut rkyv::Infallible);
+                        let meta_res: Result<Metadata, ()> =
+                            rkyv::check_archived_root::<Metadata>(&aligned_peek_meta[..])
+                                .map_err(|_| ())
+                                .and_then(|a| a.deserialize(&mut rkyv::Infallible).map_err(|_| ()));
                         match meta_res {
                             Ok(meta) => {
                                 let size1 = meta.read_size;
@@ -739,16 +742,20 @@ impl Walrus {
                                             let mut aligned2 = AlignedVec::with_capacity(meta_len2);
                                             aligned2
                                                 .extend_from_slice(&meta_buf2[2..2 + meta_len2]);
-                                            let archived2 = unsafe {
-                                                rkyv::archived_root::<Metadata>(&aligned2[..])
-                                            };
-                                            let meta2_res: Result<Metadata, _> =
-                                                archived2.deserialize(&mut rkyv::Infallible);
-                                            let meta2 = meta2_res
-                                                .expect("infallible metadata deserialize");
-                                            let size2 = meta2.read_size;
-                                            let required2 = (PREFIX_META_SIZE + size2) as u64;
-                                            final_required = required1 + required2;
+                                            let meta2_res: Result<Metadata, ()> =
+                                                rkyv::check_archived_root::<Metadata>(&aligned2[..])
+                                                    .map_err(|_| ())
+                                                    .and_then(|a| {
+                                                        a.deserialize(&mut rkyv::Infallible)
+                                                            .map_err(|_| ())
+                                                    });
+                                            // a damaged second header just ends the look-ahead
+                                            if let Ok(meta2) = meta2_res {
+                                                let size2 = meta2.read_size;
+                                                let required2 =
+                                                    (PREFIX_META_SIZE as u64).saturating_add(size2 as u64);
+                                                final_required = required1.saturating_add(required2);
+                                            }
                                         }
                                     }
                                 }
@@ -819,7 +826,10 @@ impl Walrus {
 
                         let mut aligned = AlignedVec::with_capacity(meta_len);
                         aligned.extend_from_slice(&meta_buf[2..2 + meta_len]);
-                        let archived = unsafe { rkyv::archived_root::<Metadata>(&aligned[..]) };
+                        let archived = match rkyv::check_archived_root::<Metadata>(&aligned[..]) {
+                            Ok(a) => a,
+                            Err(_) => break, // damaged header
+                        };
                         let meta: Metadata = match archived.deserialize(&mut rkyv::Infallible) {
                             Ok(m) => m,
                             Err(_) => break,
@@ -1025,7 +1035,10 @@ impl Walrus {
                 let mut aligned = AlignedVec::with_capacity(meta_len);
                 aligned.extend_from_slice(&buffer[buf_offset + 2..buf_offset + 2 + meta_len]);
 
-                let archived = unsafe { rkyv::archived_root::<Metadata>(&aligned[..]) };
+                let archived = match rkyv::check_archived_root::<Metadata>(&aligned[..]) {
+                    Ok(a) => a,
+                    Err(_) => break, // damaged header - stop
+                };
                 let meta: Metadata = match archived.deserialize(&mut rkyv::Infallible) {
                     Ok(m) => m,
                     Err(_) => {
